@@ -29,7 +29,9 @@ func (m *MethodScope) AddVar(vr *types.Var, suffix string) *Var {
 
 	name := varName(vr, suffix)
 	// Ensure that the var name does not conflict with a package import.
-	if _, ok := m.registry.searchImport(name); ok {
+	// The suffixed name may itself equal another qualifier (a package called
+	// fooMoqParam): repeat until it is free.
+	for _, ok := m.registry.searchImport(name); ok; _, ok = m.registry.searchImport(name) {
 		name += "MoqParam"
 	}
 	if _, ok := m.searchVar(name); ok || m.conflicted[name] {
